@@ -63,11 +63,14 @@ EXTRA_OVERLAY = {
     "sim__frame__h.rs": ("sim/frame.rs", "verif_kani_h"),
     "sim__mem__h.rs": ("sim/mem.rs", "verif_kani_h"),
 }
+# harness files that are included as child modules of a generated module (see kani/<module>.extract.json): file -> owning module
+CHILD_OF_GEN = {"asm__objblock.rs": "asm.rs"}
 # harness module -> other harness modules whose helpers it uses
 MODULE_NEEDS = {
     "sim.rs": ["sim__mem.rs", "sim__frame.rs", "sim__device.rs"],
     "sim__frame.rs": ["sim__mem.rs"],
     "sim__mem__copy.rs": ["sim__mem.rs"],
+    "asm__objblock.rs": ["asm.rs"],
     "sim__device__poll.rs": ["sim__device.rs"],
     "sim__device__h.rs": ["sim__device.rs"],
     "sim__frame__h.rs": ["sim__frame.rs", "sim__mem.rs"],
@@ -230,6 +233,8 @@ class Scratch:
             f.write("[net]\noffline = true\n")
         inv = {v: k for k, v in OVERLAY.items()}
         for m in self.modules:
+            if m in CHILD_OF_GEN:
+                continue  # pulled in by the generated module of its owner
             srcrel, modname = EXTRA_OVERLAY[m] if m in EXTRA_OVERLAY else (inv[m], "verif_kani")
             p = os.path.join(self.src, "src", srcrel)
             if not os.path.exists(p):
